@@ -147,8 +147,8 @@ VIAS = {'object': via_object, 'proto': via_proto}
 class Measure:
   """deterministic outcome of trial `tid` (same in run A and run B)"""
 
-  def __init__(self, seed, metric_names, p_infeasible=0.1, ties=True):
-    self.seed, self.names, self.p_inf, self.ties = seed, metric_names, p_infeasible, ties
+  def __init__(self, seed, metric_names, p_infeasible=0.1, ties=True, p_nonfinite=0.0):
+    self.seed, self.names, self.p_inf, self.ties, self.p_nonfinite = seed, metric_names, p_infeasible, ties, p_nonfinite
 
   def complete(self, trial):
     from vizier import pyvizier as vz
@@ -158,6 +158,9 @@ class Measure:
     m = {}
     for n in self.names:
       m[n] = r.choice([0.0, 0.5, 1.0]) if (self.ties and r.random() < 0.25) else r.uniform(-2.0, 2.0)
+      if self.p_nonfinite and r.random() < self.p_nonfinite:
+        # what a diverged evaluation reports: the persisted state must carry it as it is
+        m[n] = r.choice([float('nan'), float('inf'), float('-inf')])
     return trial.complete(vz.Measurement(metrics=m))
 
 
@@ -558,7 +561,8 @@ def nsga_stage(c, n_cases, dumps_seen):
     restarts = gen_restarts(c.rng, len(steps))
     case = {'space': desc, 'metrics': metrics, 'seed': seed, 'population_size': ps, 'first_survival_after': fsa,
             'via': via, 'steps': steps, 'restarts': restarts}
-    measure = Measure(ci, [m for m, _ in metrics], p_infeasible=0.0)
+    measure = Measure(ci, [m for m, _ in metrics], p_infeasible=0.0, p_nonfinite=0.15 if ci % 3 == 2 else 0.0)
+    case['nonfinite_metrics'] = ci % 3 == 2
     a, feed = drive(fresh, steps, [False] * len(steps), via_object, measure, probe=nsga_probe)
     # shadow mode: the restarted run receives exactly the trial history of the live run
     b, _ = drive(fresh, steps, restarts, VIAS[via], measure, feed=feed, probe=nsga_probe)
